@@ -175,7 +175,9 @@ def rule_defaults(col, facts):
             continue
         n += 1
         for g in dv:
-            col.check(R, "%s:%s" % (f.short.replace(WF, ""), g), dv[g] <= base[g] or not dv[g],
+            # (buffer_size_const only uses the magnitude of a break: it may keep `5` for the writers' `-5`)
+            mag = lambda vs: {abs(v) for v in vs if isinstance(v, int)}
+            col.check(R, "%s:%s" % (f.short.replace(WF, ""), g), dv[g] <= base[g] or not dv[g] or mag(dv[g]) <= mag(base[g]),
                       "default %s = %s here but buffer_size_const assumes %s: the documented bound no longer matches the notation choice" % (g, sorted(dv[g]), sorted(base[g])), f.loc())
     col.floor(R, "writers with notation defaults", n, 1)
     cb = facts.fn(WF + "write::check_buffer", required=False)
